@@ -1228,6 +1228,8 @@ def run(ctx):
     # "a range bounds the result on both sides": the expanding traversals decide which columns/cells a range returns (rule shared with C08)
     from .c08 import r08c
     r08c(ctx)
+    from .round12 import r19n
+    r19n(ctx)
 
 
 from ..selftest import Seed, unparse_seed  # noqa: E402
